@@ -296,6 +296,8 @@ func checkC17(c *Ctx, r *Report) {
 	}
 	r.floor("C17.CASES", "(built-in field, serving type) pairs", nCases, 90)
 	c17Pure(c, r, resolveFns)
+	c17Total(c, r, resolveFns)
+	importRules(c, r, "C16", "C17.EXTREFS", "the references an extension brings along are resolved before it is merged (C16.EXTREFS): the implicit schema object is in no table, so a root operation type added by `extend schema` and resolved only by a later table-wide pass stays a placeholder and __schema.mutationType describes a *Ref", "C16.EXTREFS")
 	c17Depr(c, r)
 	c17Null(c, r)
 	c17Roots(c, r)
@@ -640,4 +642,101 @@ func (c *Ctx) hasMember(srv, field string) bool {
 		return false
 	}
 	return typeStr(v.Type()) == mt[1]
+}
+
+// c17Total: "introspection describes every argument as declared". A Resolve case may route a member of the
+// node through a helper of the package (a formatter for default values, a filter). Such a helper must be
+// total on present values: it returns the untyped nil only on paths where its argument IS nil (v == nil, or
+// reflect.ValueOf(v) not valid). A nil returned under any other test (IsZero, a length, a kind) reports a
+// declared member as absent for some values - a default of 0, false or "" disappears from the description.
+func c17Total(c *Ctx, r *Report, resolveFns []*ssa.Function) {
+	r.rule("C17.TOTAL", "a package helper that a Resolve method applies to a member of its node returns nil only under a dominating proof that the argument is nil")
+	n := 0
+	seen := map[*ssa.Function]bool{}
+	for _, fn := range resolveFns {
+		if len(fn.Params) == 0 {
+			continue
+		}
+		recv := fn.Params[0]
+		for _, ci := range callsIn(fn) {
+			cal := ci.Common().StaticCallee()
+			if cal == nil || !c.inPkg(cal) || len(cal.Blocks) == 0 || cal.Signature.Results().Len() != 1 {
+				continue
+			}
+			if !isEmptyIface(cal.Signature.Results().At(0).Type()) {
+				continue
+			}
+			// an argument that is a member of the receiver
+			pi := -1
+			for i, a := range ci.Common().Args {
+				if base, _, _, ok := loadOfField(stripIface(a)); ok && rootValueOfLoad(base) == ssa.Value(recv) && i < len(cal.Params) {
+					pi = i
+				}
+			}
+			if pi < 0 || seen[cal] {
+				continue
+			}
+			seen[cal] = true
+			n++
+			r.fnSeen(fnName(cal))
+			p := cal.Params[pi]
+			bad := ""
+			var at ssa.Instruction
+			for _, rt := range returnsOf(cal) {
+				leaves, _ := phiLeaves(rt.Results[0])
+				for _, lf := range leaves {
+					if !isNilConst(lf.val) {
+						continue
+					}
+					b := rt.Block()
+					if lf.pred != nil {
+						b = lf.pred
+					}
+					if !hasGuard(b, func(g guard) bool { return provesNilArg(g, p) }) {
+						bad = "a path returns nil without having established that " + p.Name() + " is nil"
+						at = rt
+					}
+				}
+			}
+			pos := cal.Pos()
+			if at != nil {
+				pos = at.Pos()
+			}
+			r.check("C17.TOTAL", fmt.Sprintf("%s (applied to a member in %s): nil only for a nil argument", fnName(cal), fnName(fn)), pos, bad == "",
+				bad+": a declared value for which that test also holds (0, false, \"\") is described as absent")
+		}
+	}
+	r.Notes = append(r.Notes, fmt.Sprintf("C17.TOTAL: %d helper(s) applied to node members inside Resolve methods", n))
+}
+
+func rootValueOfLoad(v ssa.Value) ssa.Value {
+	for i := 0; i < 6; i++ {
+		switch t := v.(type) {
+		case *ssa.FieldAddr:
+			v = t.X
+		case *ssa.UnOp:
+			v = t.X
+		default:
+			return v
+		}
+	}
+	return v
+}
+
+// provesNilArg: the guard establishes p == nil, or that reflect.ValueOf(p) is not valid.
+func provesNilArg(g guard, p *ssa.Parameter) bool {
+	g = normGuard(g)
+	if v, eq, ok := nilCmp(g.cond); ok && eq == g.val && stripIface(v) == ssa.Value(p) {
+		return true
+	}
+	if call, ok := g.cond.(*ssa.Call); ok && !g.val {
+		if f := calleeObj(call); f != nil && f.Pkg() != nil && f.Pkg().Path() == "reflect" && f.Name() == "IsValid" && len(call.Call.Args) == 1 {
+			if vo, ok := call.Call.Args[0].(*ssa.Call); ok {
+				if f2 := calleeObj(vo); f2 != nil && f2.Name() == "ValueOf" && len(vo.Call.Args) == 1 && stripIface(vo.Call.Args[0]) == ssa.Value(p) {
+					return true
+				}
+			}
+		}
+	}
+	return false
 }
